@@ -556,6 +556,22 @@ func ruleErrChain(c *Ctx) {
 			}
 		}
 
+		// ---- the tolerance of test for an absent location is for object members only --
+		if pdGet, paGet := b.method(b.Lib, "partialDoc", "get"), b.method(b.Lib, "partialArray", "get"); pdGet != nil && paGet != nil && a.sum[pdGet]["S:ErrMissing"] {
+			key := "TEST-ABSENT: (*partialArray).get never reports an index outside the array as ErrMissing"
+			if a.sum[paGet]["S:ErrMissing"] {
+				where := ""
+				for _, r := range liveReturns(paGet) {
+					if ei := errResultIndex(paGet); ei >= 0 && a.chain(retVal(r, ei), map[ssa.Value]bool{})["S:ErrMissing"] {
+						where = b.posOf(r)
+					}
+				}
+				l.add("R-ERRCHAIN", b.Name, key, where, Violated, "the array lookup can fail with ErrMissing, which the test handler takes for an absent object member and compares as null: `test /5 null` on a three-element array succeeds instead of failing", true)
+			} else {
+				l.add("R-ERRCHAIN", b.Name, key, b.rel(paGet.Pos()), Discharged, "error chains of the array lookup: "+a.sum[paGet].String(), true)
+			}
+		}
+
 		// ---- MISSING-member (containers) ------------------------------------------
 		for _, fn := range b.srcFuncs(b.Lib) {
 			if recvTypeName(fn) != "partialDoc" || errResultIndex(fn) < 0 || !isContainerImplMethod(fn) {
